@@ -39,6 +39,10 @@ type h2cCase struct {
 	Reuse []h2cPair `json:"reuse,omitempty"`
 	// Conc: calls executed simultaneously, one goroutine each, on buffers they own.
 	Conc []h2cPair `json:"concurrent,omitempty"`
+	// Seq: consecutive calls on fresh buffers, possibly of different functions (Fn of each pair): pairs that collide when
+	// message and tag are concatenated without unambiguous framing, the same tag used with different output lengths, very
+	// short tags. What a memo, a per-tag cache or a shared table keyed too coarsely cannot tell apart.
+	Seq []h2cPair `json:"sequence,omitempty"`
 	// Uniform (Fn == "pipeline"): chosen expander output (48 or 96 bytes) pushed through the library's own reduction, map
 	// and isogeny steps, i.e. everything of hash_to_curve after the hash. Hashing cannot steer these bytes; choosing them
 	// reaches the thin sets on which the reduction or the map may err.
@@ -48,6 +52,8 @@ type h2cCase struct {
 type h2cPair struct {
 	Msg string `json:"msg"`
 	Dst string `json:"dst"`
+	// Fn (Seq only): the function of this call; calls of functions the property is not about are made but not judged.
+	Fn string `json:"fn,omitempty"`
 }
 
 // layoutSlice places content inside a larger backing array according to the layout name.
@@ -157,6 +163,11 @@ func h2cGenerate(c *mon.Ctx, fns []string, nq, nt int) {
 		c.Structured(func() any { return cs })
 	}
 
+	for _, cs := range h2cExtraCases(c, fns) {
+		cs := cs
+		c.Structured(func() any { return cs })
+	}
+
 	// concurrent batches
 	for b := 0; b < c.N(8, 400); b++ {
 		cs := &h2cCase{Fn: fns[b%len(fns)], Layout: "exact", Class: "concurrent"}
@@ -187,6 +198,101 @@ func h2cGenerate(c *mon.Ctx, fns []string, nq, nt int) {
 
 		return &h2cCase{Fn: fns[r.Intn(len(fns))], Msg: mon.H(r.Bytes(ml)), Dst: mon.H(r.Bytes(dl)), Layout: h2cLayouts[r.Intn(len(h2cLayouts))], Class: "random"}
 	})
+}
+
+// h2cExtraCases: the length sweep and the call sequences, shared by C08 and C09 (which wraps them).
+func h2cExtraCases(c *mon.Ctx, fns []string) []*h2cCase {
+	var out []*h2cCase
+
+	pat := func(n int, seed byte) []byte {
+		b := make([]byte, n)
+		for i := range b {
+			b[i] = byte(i*7+3) ^ seed
+		}
+
+		return b
+	}
+
+	rr := c.SharedRng("sequences")
+
+	// every message length 0..520 against four tag lengths: total lengths msg+tag cross every block / buffer boundary
+	for ml := 0; ml <= 520; ml++ {
+		for di, dl := range []int{49, 16, 255, 256} {
+			if di >= 2 && ml%4 != 0 {
+				continue
+			}
+
+			cs := &h2cCase{Fn: fns[(ml+di)%len(fns)], Msg: mon.H(pat(ml, 0x21)), Dst: mon.H(pat(dl, 0x6b)), Layout: h2cLayouts[(ml+di)%len(h2cLayouts)], Class: "length-sweep"}
+			out = append(out, cs)
+		}
+	}
+
+	// sequences across functions and colliding framings
+	all3 := []string{"H2G", "E2G", "H2S"}
+
+	for i := 0; i < c.N(240, 4000); i++ {
+		cs := &h2cCase{Fn: fns[i%len(fns)], Layout: "exact", Class: "sequence"}
+		fn := fns[i%len(fns)]
+
+		switch i % 6 {
+		case 0:
+			// tag || len(tag) || msg collides: (A, M) and (A || len(A) || M[:j], M[j+1:]) with M[j] = len(A)+1+j
+			a, j := 1+rr.Intn(5), rr.Intn(4)
+			A := rr.Bytes(a)
+			M := append(append(rr.Bytes(j), byte(a+1+j)), rr.Bytes(1+rr.Intn(6))...)
+			d2 := append(append(append([]byte{}, A...), byte(a)), M[:j]...)
+			p1, p2 := h2cPair{Fn: fn, Msg: mon.H(M), Dst: mon.H(A)}, h2cPair{Fn: fn, Msg: mon.H(M[j+1:]), Dst: mon.H(d2)}
+			cs.Seq = []h2cPair{p1, p2, p1}
+
+			if i%12 == 6 {
+				cs.Seq = []h2cPair{p2, p1, p2}
+			}
+		case 1:
+			// msg || tag (and tag || msg) collide: one byte string split at two places
+			B := rr.Bytes(10 + rr.Intn(8))
+			s1, s2 := 2+rr.Intn(3), 6+rr.Intn(3)
+			p1, p2 := h2cPair{Fn: fn, Msg: mon.H(B[:s1]), Dst: mon.H(B[s1:])}, h2cPair{Fn: fn, Msg: mon.H(B[:s2]), Dst: mon.H(B[s2:])}
+			q1, q2 := h2cPair{Fn: fn, Msg: mon.H(B[s1:]), Dst: mon.H(B[:s1])}, h2cPair{Fn: fn, Msg: mon.H(B[s2:]), Dst: mon.H(B[:s2])}
+			cs.Seq = []h2cPair{p1, p2, q1, q2}
+		case 2:
+			// the same tag with every function, in every order (output lengths 96 and 48 under one tag)
+			d := rr.Bytes([]int{1, 2, 3, 16, 49, 255, 256, 300}[rr.Intn(8)])
+			m := rr.Bytes(rr.Intn(20))
+			o := rr.Intn(3)
+
+			for k := 0; k < 4; k++ {
+				cs.Seq = append(cs.Seq, h2cPair{Fn: all3[(o+k)%3], Msg: mon.H(m), Dst: mon.H(d)})
+			}
+
+			cs.Seq = append(cs.Seq, h2cPair{Fn: fn, Msg: mon.H(m), Dst: mon.H(d)})
+		case 3:
+			// very short tags first, then ordinary ones
+			for k := 0; k < 3; k++ {
+				cs.Seq = append(cs.Seq, h2cPair{Fn: all3[k], Msg: mon.H(rr.Bytes(3)), Dst: mon.H(rr.Bytes(1 + (i/6+k)%3))})
+			}
+
+			for k := 0; k < 3; k++ {
+				cs.Seq = append(cs.Seq, h2cPair{Fn: fn, Msg: mon.H(rr.Bytes(3 + k)), Dst: mon.H(rr.Bytes([]int{20, 49, 300}[k]))})
+			}
+		case 4:
+			// identical call repeated, then the same message under another tag and the same tag with another message
+			m, d := rr.Bytes(5+rr.Intn(40)), rr.Bytes(16+rr.Intn(40))
+			p := h2cPair{Fn: fn, Msg: mon.H(m), Dst: mon.H(d)}
+			cs.Seq = []h2cPair{p, p, {Fn: fn, Msg: mon.H(m), Dst: mon.H(rr.Bytes(len(d)))}, p, {Fn: fn, Msg: mon.H(rr.Bytes(len(m))), Dst: mon.H(d)}, p}
+		default:
+			// tags that differ only in their last byte / only in length (one a prefix of the other), messages likewise
+			d := rr.Bytes(20 + rr.Intn(30))
+			d2 := append([]byte{}, d...)
+			d2[len(d2)-1] ^= 1
+			m := rr.Bytes(10)
+			cs.Seq = []h2cPair{{Fn: fn, Msg: mon.H(m), Dst: mon.H(d)}, {Fn: fn, Msg: mon.H(m), Dst: mon.H(d2)}, {Fn: fn, Msg: mon.H(m), Dst: mon.H(d[:len(d)-1])}, {Fn: fn, Msg: mon.H(m[:9]), Dst: mon.H(d)},
+				{Fn: fn, Msg: mon.H(append(append([]byte{}, m...), 0)), Dst: mon.H(d)}, {Fn: fn, Msg: mon.H(m), Dst: mon.H(d)}}
+		}
+
+		out = append(out, cs)
+	}
+
+	return out
 }
 
 // h2cInputs materialises the case's slices.
@@ -256,6 +362,41 @@ func h2cWant(fn string, m, d []byte) []byte {
 // the case was of one of those kinds.
 func h2cRunHistory(c *mon.Ctx, cs *h2cCase) bool {
 	switch {
+	case len(cs.Seq) > 0:
+		c.Count("sequences")
+
+		judged := map[string]bool{cs.Fn: true}
+		if cs.Fn == "H2G" || cs.Fn == "E2G" {
+			judged["H2G"], judged["E2G"] = true, true
+		}
+
+		for i, p := range cs.Seq {
+			m, d := mon.UnH(p.Msg), mon.UnH(p.Dst)
+
+			c.Eval(1)
+			c.Count("sequence-calls")
+
+			var got []byte
+
+			if pan, pv := mon.Call(func() { got = h2cCallBytes(p.Fn, m, d) }); pan {
+				c.Fail(fmt.Sprintf("%s panicked at call %d of a sequence of hashing calls (msg[%d], dst[%d]): %v", p.Fn, i, len(m), len(d), pv), "h2c-sequence-panic", nil)
+				return true
+			}
+
+			if !judged[p.Fn] {
+				continue
+			}
+
+			if want := h2cWant(p.Fn, m, d); !bytes.Equal(got, want) {
+				c.Fail(fmt.Sprintf("%s: call %d of a sequence of hashing calls on fresh buffers (msg=%s, dst=%s) returned %s, RFC 9380 value is %s; the sequence: %v", p.Fn, i, mon.Trunc(p.Msg, 40), mon.Trunc(p.Dst, 40), mon.H(got), mon.H(want), cs.Seq),
+					"h2c-sequence:"+p.Fn, map[string]any{"call": i})
+				return true
+			}
+		}
+
+		c.Seen(cs.Seq)
+
+		return true
 	case len(cs.Reuse) > 0:
 		c.Count("reuse-sequences")
 
